@@ -237,7 +237,12 @@ def record_epochs2d(case, L, per_epoch, rng, layout=0):
                 th.update({'burst_fraction_threshold': float(rng.choice([0.25, 0.5, 1.0])), 'min_n_cycles': int(rng.integers(1, 4))})
                 if oe.get('burst_kwargs'):
                     oe['burst_kwargs'].pop('min_n_cycles', None)      # one minimum-cycle count per epoch, given in the thresholds
+            if e % 3 == 1 and method == 'cycles':
+                # a lax epoch right before one that leaves its thresholds out: the two must not share anything
+                th = {'amp_fraction_threshold': 0.0, 'amp_consistency_threshold': 0.0, 'period_consistency_threshold': 0.0, 'monotonicity_threshold': 0.25, 'min_n_cycles': 1}
             oe['threshold_kwargs'] = th
+            if e % 3 == 2 and method == 'cycles':
+                del oe['threshold_kwargs']          # this epoch leaves the thresholds out: the library defaults apply to it, whatever its neighbours use
             kw.append(oe)
     else:
         kw = copy.deepcopy(o)
@@ -266,10 +271,11 @@ def record_epochs2d(case, L, per_epoch, rng, layout=0):
                 d = d.copy()
                 d['rowid'] = [by_next.get(int(v) + e * L, 0) for v in d[nxt_col].values] if len(d) else []
                 if per_epoch:
-                    rows, tc = project_rows(d, with_codes=(method, kw[e]['threshold_kwargs']))
+                    thr_e = kw[e].get('threshold_kwargs', {k_: v_ for k_, v_ in record.DEFAULT_THR.items() if k_ != 'burst_fraction_threshold'})
+                    rows, tc = project_rows(d, with_codes=(method, thr_e))
                     if not rows:
                         rows = []
-                    opts.append({'method': method, 'thr': tc, 'm': int(kw[e]['threshold_kwargs'].get('min_n_cycles', 3))})
+                    opts.append({'method': method, 'thr': tc, 'm': int(thr_e.get('min_n_cycles', 3))})
                 else:
                     rows = project_rows(d)
                 out.append(rows)
